@@ -573,6 +573,14 @@ class _Formatter:
         if cs in _CLOSERS:
             return ""
 
+        # Subprocess text: whitespace separates the words of a command, so
+        # none of the Python spacing rules below may insert or remove it.
+        # Keep the source's gap (collapsed to one blank), force nothing.
+        if self._in_subproc_text():
+            if prev.end[0] != cur.start[0]:
+                return " "
+            return " " if cur.start[1] > prev.end[1] else ""
+
         # Comma / semicolon: never a space before, exactly one after.
         if cs == "," or cs == ";":
             return ""
@@ -620,6 +628,17 @@ class _Formatter:
         if prev.end[0] != cur.start[0]:
             return " "
         return " " if cur.start[1] > prev.end[1] else ""
+
+    def _in_subproc_text(self) -> bool:
+        """Are we between the words of a subprocess command?  The innermost
+        mode-switching bracket decides (``@(`` / ``${`` switch back to
+        Python); outside any, the statement-level heuristic does."""
+        for b in reversed(self._brackets):
+            if b in ("@(", "${", "@!("):
+                return False
+            if b in ("$(", "$[", "!(", "![", "@$("):
+                return True
+        return self._subproc_line
 
     # ---------------------------------------------------------------
     # Token rendering
